@@ -10,6 +10,7 @@ arrival order, the coordinator folds the node results from nil in arrival order.
 -/
 import PV.C17.LemmasM
 import PV.C17.LemmasF
+import PV.C17.LemmasT
 namespace PV.C17
 open List K
 
@@ -612,6 +613,120 @@ theorem C17_failover_remap_all_witness :
     mrRunRemapAll (· + ·) 0 (fun s => 10 ^ s) (fun s => [s % 3, (s + 1) % 3]) [0, 1, 2]
       (mrStart 0 [0, 1, 2] (fun s => [s % 3, (s + 1) % 3]) [0, 1, 2])
       [(0, true), (0, false), (0, true), (0, true)] = .done 102 := by decide
+
+/-! ## TopN(n): the two-pass protocol of `executeTopN` (Model.lean `executeTopNModel`)
+
+Pass 1 map-reduces the per-shard top lists (`Pairs.Add`; a remote node returns ALL it merged, sorted),
+the keys of the merged list are the candidates, pass 2 fetches the exact counts of every candidate on
+every shard, the result is sorted and trimmed to `n`. `remote` says which node results were sorted
+on the way (the coordinator's own partial result is not). -/
+
+/-- Selection guarantee of the code: whatever the grouping of shards onto nodes, the coordinator and
+the arrival orders, the answer is `Spec.topN n` of the list of shards — the best `n` (by exact
+total) of the ids that are among the best `n` of at least one SHARD. -/
+theorem C17_topn_eq_spec (n : Nat) (remote : List (List Pair) → Bool) (groups : List (List (List Pair))) :
+    executeTopNModel n remote groups = Spec.topN n groups.flatten := by
+  simp only [executeTopNModel, Spec.topN, topNShards_eq]
+
+theorem C17_spec_pairs_perm {l₁ l₂ : List (List Pair)} (p : l₁.Perm l₂) : Spec.pairs l₁ = Spec.pairs l₂ := by
+  have := C17_pairs_order_free [l₁] [l₂] (by simpa using p)
+  rw [C17_pairs, C17_pairs] at this
+  simpa using this
+
+/-- … hence it does not depend on which node coordinates, on the grouping or on arrival orders. -/
+theorem C17_topn_order_free (n : Nat) (r₁ r₂ : List (List Pair) → Bool)
+    (g₁ g₂ : List (List (List Pair))) (p : g₁.flatten.Perm g₂.flatten) :
+    executeTopNModel n r₁ g₁ = executeTopNModel n r₂ g₂ := by
+  rw [C17_topn_eq_spec, C17_topn_eq_spec]
+  unfold Spec.topN
+  have h1 : Spec.pairs (g₁.flatten.map (topShard n)) = Spec.pairs (g₂.flatten.map (topShard n)) :=
+    C17_spec_pairs_perm (p.map _)
+  rw [h1]
+  have h2 : ∀ ids, Spec.pairs (g₁.flatten.map (topShardIds ids)) = Spec.pairs (g₂.flatten.map (topShardIds ids)) :=
+    fun ids => C17_spec_pairs_perm (p.map _)
+  simp only [h2]
+
+/-- Pass 2 makes every reported count exact: each reported pair carries the TOTAL count of its id
+over all shards; and every reported id is a candidate (among the best `n` of some shard). -/
+theorem C17_topn_counts_exact (n : Nat) (remote : List (List Pair) → Bool)
+    (groups : List (List (List Pair))) :
+    ∀ p ∈ executeTopNModel n remote groups,
+      p.count = Spec.pairTotal p.id groups.flatten.flatten ∧
+      ∃ shard ∈ groups.flatten, ∃ q ∈ topShard n shard, q.id = p.id := by
+  intro p hp
+  rw [C17_topn_eq_spec] at hp
+  generalize groups.flatten = shards at hp
+  unfold Spec.topN at hp
+  simp only at hp
+  split at hp
+  · rename_i he
+    have : sortPairs (Spec.pairs (shards.map (topShard n))) = [] := by
+      cases h : sortPairs (Spec.pairs (shards.map (topShard n))) with
+      | nil => rfl
+      | cons _ _ => rw [h] at he; cases he
+    rw [this] at hp; cases hp
+  · generalize hids : sortedKeys (sortPairs (Spec.pairs (shards.map (topShard n)))) = ids at hp
+    have hp2 : p ∈ Spec.pairs (shards.map (topShardIds ids)) :=
+      (sortPairs_perm _).mem_iff.mp (mem_trimN hp)
+    have hs := C17_pairs_sum [shards.map (topShardIds ids)]
+    rw [C17_pairs] at hs
+    simp only [flatten_cons, flatten_nil, append_nil] at hs
+    obtain ⟨_, hkeys, hcnt⟩ := hs
+    have hc := hcnt p hp2
+    rcases (hkeys p.id).mp (mem_map.mpr ⟨p, hp2, rfl⟩) with ⟨q, hq, hqid⟩
+    have hfl : (shards.map (topShardIds ids)).flatten
+        = shards.flatten.filter (fun p => p.count > 0 && ids.contains p.id) :=
+      flatten_map_filter _ shards
+    rw [hfl] at hq hc
+    have hin : ids.contains p.id = true := by
+      have := (mem_filter.mp hq).2
+      simp only [Bool.and_eq_true] at this
+      rw [← hqid]; exact this.2
+    refine ⟨by rw [hc, pairTotal_topShardIds p.id ids hin], ?_⟩
+    -- p.id is a key of the pass-1 merge, i.e. listed by some shard's top list
+    have hmem : p.id ∈ (sortPairs (Spec.pairs (shards.map (topShard n)))).map (·.id) := by
+      rw [← hids] at hin
+      exact mem_sortedKeys.mp (by simpa using hin)
+    rcases mem_map.mp hmem with ⟨c, hcmem, hcid⟩
+    have hc1 : c ∈ Spec.pairs (shards.map (topShard n)) := (sortPairs_perm _).mem_iff.mp hcmem
+    have hs1 := C17_pairs_sum [shards.map (topShard n)]
+    rw [C17_pairs] at hs1
+    simp only [flatten_cons, flatten_nil, append_nil] at hs1
+    rcases (hs1.2.1 c.id).mp (mem_map.mpr ⟨c, hc1, rfl⟩) with ⟨q', hq', hq'id⟩
+    rcases mem_flatten.mp hq' with ⟨l, hl, hq'l⟩
+    rcases mem_map.mp hl with ⟨shard, hshard, rfl⟩
+    exact ⟨shard, hshard, q', hq'l, by rw [hq'id, hcid]⟩
+
+/-- Pass 1 is a heuristic (C12's business, not a dependence on placement): an id that is second in
+every shard is no candidate for n = 1 although its total is the largest. -/
+theorem C17_topn_pass1_heuristic_witness :
+    Spec.topN 1 [[⟨2, 3⟩, ⟨1, 2⟩], [⟨3, 3⟩, ⟨1, 2⟩], [⟨4, 3⟩, ⟨1, 2⟩]] = [⟨2, 3⟩] ∧
+    Spec.topNExact 1 [[⟨2, 3⟩, ⟨1, 2⟩], [⟨3, 3⟩, ⟨1, 2⟩], [⟨4, 3⟩, ⟨1, 2⟩]] = [⟨1, 6⟩] := by decide
+
+/-- The seeded change "a remote node trims what it merged in pass 1 to its best n" as a model
+(node 0 coordinates, the other groups are remote nodes). -/
+def topNShardsRemoteTrim (n : Nat) (perShard : List Pair → List Pair) (trim : Bool)
+    (groups : List (List (List Pair))) : List Pair :=
+  sortPairs (reduceAll pairsAdd [] (groups.mapIdx (fun i g =>
+    let r := reduceAll pairsAdd [] (g.map perShard)
+    if i > 0 then (if trim then trimN n (sortPairs r) else sortPairs r) else r)))
+
+def executeTopNRemoteTrim (n : Nat) (groups : List (List (List Pair))) : List Pair :=
+  let pairs := topNShardsRemoteTrim n (topShard n) true groups
+  if pairs.isEmpty then pairs
+  else trimN n (topNShardsRemoteTrim n (topShardIds (sortedKeys pairs)) false groups)
+
+/-- With that change the answer depends on the grouping of the same three shards onto two nodes,
+which `C17_topn_order_free` excludes for the code as it is. -/
+theorem C17_topn_remote_trim_witness :
+    executeTopNRemoteTrim 2 [[[⟨6, 5⟩, ⟨7, 4⟩, ⟨5, 3⟩]], [[⟨5, 4⟩, ⟨1, 2⟩, ⟨6, 1⟩], [⟨7, 6⟩, ⟨1, 5⟩, ⟨5, 1⟩]]]
+      = [⟨7, 10⟩, ⟨1, 7⟩] ∧
+    executeTopNRemoteTrim 2 [[[⟨6, 5⟩, ⟨7, 4⟩, ⟨5, 3⟩], [⟨5, 4⟩, ⟨1, 2⟩, ⟨6, 1⟩]], [[⟨7, 6⟩, ⟨1, 5⟩, ⟨5, 1⟩]]]
+      = [⟨7, 10⟩, ⟨5, 8⟩] := by decide
+
+example : executeTopNModel 2 (fun _ => true)
+    [[[⟨6, 5⟩, ⟨7, 4⟩, ⟨5, 3⟩]], [[⟨5, 4⟩, ⟨1, 2⟩, ⟨6, 1⟩], [⟨7, 6⟩, ⟨1, 5⟩, ⟨5, 1⟩]]] = [⟨7, 10⟩, ⟨5, 8⟩] := by
+  decide
 
 /-! ## bool reducer (ClearRow / Store return value) -/
 
